@@ -1034,11 +1034,11 @@ fn thorough_configs() -> Vec<(Config, u64)> {
     use Hint::*;
     let mut out = vec![];
     // k = 2 senders, one blocking period with a poll: every class of hint pair
-    for (a, b) in [(N, N), (N, M(0))] {
+    for (a, b) in [(N, M(0))] {
         out.push((cfg(&[(a, true), (b, true)], &["SPD"]), 40_000));
     }
     // one period without poll: remaining hint pairs; inner sender answering Retry
-    for (a, b) in [(N, B), (B, M(0)), (M(0), M(2)), (B, B), (M(2), M(2)), (N, M(2))] {
+    for (a, b) in [(N, N), (N, B), (B, M(0)), (M(0), M(2))] {
         out.push((cfg(&[(a, true), (b, true)], &["SD"]), 40_000));
     }
     out.push((cfg(&[(N, false), (N, true)], &["SD"]), 40_000));
@@ -1050,11 +1050,11 @@ fn thorough_configs() -> Vec<(Config, u64)> {
     out.push((cfg(&[(N, true)], &["SPDSPD"]), 40_000));
     out.push((cfg(&[(M(1), true)], &["SPDSPD"]), 40_000));
     out.push((cfg(&[(N, true)], &["SD", "SD"]), 40_000));
-    out.push((cfg(&[(M(2), true)], &["SPD", "SD"]), 4_000));
+    out.push((cfg(&[(M(2), true)], &["SPD", "SD"]), 2_000));
     // two blocking periods, k = 2: too large to exhaust, DFS prefix (plus random schedules below)
     for (a, b) in [(N, N), (M(0), B)] {
-        out.push((cfg(&[(a, true), (b, true)], &["SDSPD"]), 4_000));
-        out.push((cfg(&[(a, true), (b, true)], &["SPD", "SD"]), 4_000));
+        out.push((cfg(&[(a, true), (b, true)], &["SDSPD"]), 2_000));
+        out.push((cfg(&[(a, true), (b, true)], &["SPD", "SD"]), 2_000));
     }
     out
 }
@@ -1100,12 +1100,12 @@ fn main() {
         s.stats.extra.insert("dfs_exhaustive".into(), json!(exhaustive));
         s.stats.extra.insert("dfs_capped".into(), json!(capped));
         let two = two_period_configs();
-        for i in 0..4000usize {
+        for i in 0..2000usize {
             let cfg = two[i % two.len()].clone();
             s.stats.count("gen.two_period_k2_random");
             random_case(&mut s, &cfg, &mut rng);
         }
-        for _ in 0..4000 {
+        for _ in 0..3000 {
             let cfg = gen_config(&mut rng, &mut s.stats);
             random_case(&mut s, &cfg, &mut rng);
         }
